@@ -47,7 +47,7 @@ def main():
         "version": 1,
         "setup_cmd": SETUP,
         "hooks": {"guard": "verif",
-                  "enable": "go build -tags verif; the only hook files are /repo/<pkg>/verif_contracts.go (comment-only contract files behind //go:build verif) and /repo/pkg/scale/verif_lemmas.go (composition lemmas written as Go functions, behind the same tag, called by nothing)",
+                  "enable": "go build -tags verif; the only hook files are /repo/<pkg>/verif_contracts.go (comment-only contract files behind //go:build verif) , /repo/pkg/scale/verif_lemmas.go (composition lemmas written as Go functions, behind the same tag, called by nothing) and /repo/pkg/trie/triedb/verif_inst.go (names instantiations of the generic trie engine so that the verifier has a concrete instance; called by nothing)",
                   "baseline_off_cmd": BASE_OFF,
                   "source_commits": hook_commits,
                   "add_only": True},
